@@ -399,12 +399,16 @@ func runC14(c *fw.Ctx) {
 		if !c.Thorough() && (k.name == "Timestamp" || k.name == "Duration") && idx%c.Of != c.Shard {
 			return
 		}
-		key := k.name + string(k.enc)
-		if seen[key] {
-			return
-		}
-		if len(seen) < 3000000 {
-			seen[key] = true
+		// (the scalars of the thorough whole-domain sweep are distinct by construction: no bookkeeping, whose
+		// millions of map entries would be rescanned by every collection)
+		if !(c.Thorough() && (k.name == "Timestamp" || k.name == "Duration")) {
+			key := k.name + string(k.enc)
+			if seen[key] {
+				return
+			}
+			if len(seen) < 3000000 {
+				seen[key] = true
+			}
 		}
 		nontrivial := len(k.enc) > minLen[k.name]
 		if !nontrivial {
